@@ -1,7 +1,9 @@
 package ir
 
 import (
+	"go/types"
 	"sort"
+	"strings"
 
 	"golang.org/x/tools/go/ssa"
 )
@@ -162,10 +164,33 @@ func (w *World) OriginsUp(fn *ssa.Function, e *Expr, maxDepth int) []Up {
 // paramDeps: does e mention a non-receiver, non-ctx parameter of f?
 func paramDeps(f *ssa.Function, e *Expr) bool {
 	recv := ""
-	if f.Signature.Recv() != nil && len(f.Params) > 0 {
+	if f.Signature.Recv() != nil && len(f.Params) > 0 && keeperLike(f.Params[0].Type(), 0) {
+		// the receiver of a keeper / server / decorator method is the long-lived module object, the same at every call;
+		// the receiver of a small descriptor or bundle struct is an argument like any other
 		recv = f.Params[0].Name()
 	}
 	return e.Any(func(x *Expr) bool { return x.Op == "param" && x.Name != recv })
+}
+
+// keeperLike: the (pointer to a) struct holds a store key, directly or in a nested / embedded struct.
+func keeperLike(t types.Type, depth int) bool {
+	if depth > 3 {
+		return false
+	}
+	st, ok := deref(t).Underlying().(*types.Struct)
+	if !ok {
+		return false
+	}
+	for i := 0; i < st.NumFields(); i++ {
+		ft := st.Field(i).Type()
+		if strings.Contains(ft.String(), "StoreKey") {
+			return true
+		}
+		if _, isStruct := deref(ft).Underlying().(*types.Struct); isStruct && keeperLike(ft, depth+1) {
+			return true
+		}
+	}
+	return false
 }
 
 // OriginsUpTo instantiates e (in fn's terms) along every direct-call chain root→…→fn and
